@@ -532,7 +532,9 @@ impl TempDir {
     pub fn new(tag: &str) -> TempDir {
         static N: std::sync::atomic::AtomicU64 = std::sync::atomic::AtomicU64::new(0);
         let n = N.fetch_add(1, std::sync::atomic::Ordering::SeqCst);
-        let p = PathBuf::from(format!("/var/tmp/oalmc-{}-{tag}{n}", std::process::id()));
+        // a blank and a non-ASCII letter in the directory name: every absolute path and file
+        // URL of the run needs percent-encoding and decoding
+        let p = PathBuf::from(format!("/var/tmp/oalmc-{}-{tag}{n} \u{e9}", std::process::id()));
         let _ = std::fs::remove_dir_all(&p);
         std::fs::create_dir_all(&p).expect("cannot create scratch directory");
         TempDir(p.canonicalize().expect("scratch directory"))
@@ -547,7 +549,7 @@ impl TempDir {
         }
     }
     fn url_root(&self) -> String {
-        format!("file://{}/", self.0.display())
+        url::Url::from_directory_path(&self.0).expect("directory url").to_string()
     }
 }
 
@@ -1046,7 +1048,7 @@ fn final_count(notes: &[Value]) -> u64 {
 fn lsp_diagnostics(dir: &TempDir, main_text: &str, delete: Option<&str>) -> Result<(u64, u64, Option<u64>), String> {
     let mut lsp = Lsp::spawn().map_err(|e| format!("cannot spawn oal-lsp (set OAL_LSP): {e}"))?;
     let mut notes = Vec::new();
-    let folder = format!("file://{}", dir.0.display());
+    let folder = url::Url::from_directory_path(&dir.0).expect("directory url").to_string().trim_end_matches('/').to_owned();
     lsp.request(
         1,
         "initialize",
@@ -1163,7 +1165,7 @@ fn check_two_folders(dir: &TempDir, a: &Program, b: &Program) -> Result<u64, Bad
             std::fs::write(d.join(n), t).expect("write module");
         }
         std::fs::write(d.join("oal.toml"), "[api]\nmain = \"main.oal\"\ntarget = \"out.yaml\"\n").unwrap();
-        roots.push(format!("file://{}", d.display()));
+        roots.push(url::Url::from_directory_path(&d).expect("directory url").to_string().trim_end_matches('/').to_owned());
     }
     let what = format!("folder a: {} {:?}; folder b: {} {:?}", a.name, a.modules, b.name, b.modules);
     let run = |roots: &[String]| -> Result<Vec<u64>, String> {
